@@ -41,6 +41,7 @@ func genPreviewHistory(r *vc.Rand) []histItem {
 	}
 	h = append(h, histItem{Op: stamp(g.fund("alice", 300)), Restart: r.Chance(1, 4)}, histItem{Op: stamp(g.fund("bob", 100))})
 	nTx = 2
+	var keyed []Op
 	for k := 0; k < n; k++ {
 		op := stamp(g.mixedOp(nTx, false))
 		if r.Chance(1, 8) {
@@ -50,6 +51,16 @@ func genPreviewHistory(r *vc.Rand) []histItem {
 			op.IK = "ik-" + op.Tag
 		}
 		it := histItem{Op: op, Restart: r.Chance(1, 8)}
+		if len(keyed) > 0 && r.Chance(1, 8) {
+			// a preview that retries an earlier keyed request: it must answer what the real retry answers (the recorded outcome)
+			pv := keyed[r.Intn(len(keyed))]
+			pv.DryRun = true
+			pv.Tag = fmt.Sprintf("%s-preview-replay%d", pv.Tag, k)
+			h = append(h, histItem{Op: pv})
+		}
+		if op.IK != "" && (op.Kind == "script" || op.Kind == "postings") {
+			keyed = append(keyed, op)
+		}
 		if r.Chance(1, 3) {
 			// a preview: either of a fresh request or of the request that follows
 			pv := op
